@@ -336,6 +336,11 @@ def seq_from_concrete(elem, items, kind="list"):
   return s
 
 
+# candidates for the members of sets / keys of maps nested inside other shapes when a counter-model
+# is turned into plain Python values (set by contract.concretize_args for each replay)
+REPLAY_UNIVERSE = ()
+
+
 class SetOf(Shape):
   """Anything used only through `x in s`.  For a replay the members are taken among `universe`
   candidates computed from the other arguments (see Contract.replay_universe)."""
@@ -344,7 +349,10 @@ class SetOf(Shape):
   def sorts(self): return [z3.ArraySort(self.key.sorts()[0], z3.BoolSort())]
   def leaves(self, v):
     if isinstance(v, SSet): return [v.arr]
-    if isinstance(v, (set, frozenset)):
+    if isinstance(v, (set, frozenset)) or (isinstance(v, (tuple, list)) and len(v) == 0):
+      # an empty tuple/list standing where a set is merged in (`d.get(k, ())`): as a collection of
+      # members it is the empty set - the only uses the subset allows of it are `in`, iteration
+      # and set.update, which do not distinguish the two
       s = SSet(self.key, z3.K(self.key.sorts()[0], z3.BoolVal(False)))
       for x in v: s = s.add(x)
       return [s.arr]
@@ -352,6 +360,7 @@ class SetOf(Shape):
   def build(self, ls): return SSet(self.key, ls[0])
   def concretize(self, v, model, ev, universe=()):
     if isinstance(v, (set, frozenset)): return v
+    universe = universe or REPLAY_UNIVERSE
     out = set()
     for c in universe:
       try:
@@ -379,6 +388,7 @@ class MapOf(Shape):
   def build(self, ls): return SMap(self.key, self.val, ls[0], ls[1:])
   def concretize(self, v, model, ev, universe=()):
     if isinstance(v, dict): return v
+    universe = universe or REPLAY_UNIVERSE
     out = {}
     for c in universe:
       try:
